@@ -242,7 +242,7 @@ def hardDrawVerdict (cells : List Cell) (impl : String) (maxW maxH : Nat) : Stri
     | _ => "FAIL hard_draw malformed surface"
   | _ => "FAIL hard_draw malformed surface"
 
-/-- `DW maxW nlines` (F216 witness): `Text.Draw` of `nlines` lines "a", …, "a", "b", "c" at
+/-- `DW maxW nlines` / `DWR maxW nlines` (F216 witness): `Text.Draw` / `RichText.Draw` of `nlines` lines "a", …, "a", "b", "c" at
 Max = maxW × 65535.  The expected value is **not** an execution of the model (65535 rows of
 `List.set` are too slow) but the *proved specification* `Props.C16Draw.draw_row_is_line`: the
 surface has `min(nlines, Max.Height)` rows, as wide as the widest line (1), and row `k` shows
@@ -283,7 +283,8 @@ def step (line : String) : String :=
   match fields op with
   | ["DP", wlo, whi, al, ws, fl, cells, ns, ot, tst] => stepDP wlo whi al ws fl cells ns ot (tst.toNat?.getD 0) impl
   | ["DP", wlo, whi, al, ws, fl, cells, ns, ot] => stepDP wlo whi al ws fl cells ns ot 0 impl
-  | ["DW", mw, nl] =>
+  | [dw, mw, nl] =>
+    if dw ≠ "DW" ∧ dw ≠ "DWR" then bad else   -- Text.Draw / RichText.Draw (soft wrap): the same expectation
     match mw.toNat?, nl.toNat? with
     | some mw, some nl =>
       let exp := dwExpected mw nl
